@@ -96,7 +96,12 @@ impl<T: Send + Sync + 'static> Subscriber<T, AsyncLock> {
     #[must_use]
     pub async fn next_ref(&mut self) -> Option<ObservableReadGuard<'_, T, AsyncLock>> {
         // Unclear how to implement this as a named future.
+        let observed_version = self.observed_version;
         poll_fn(|cx| self.poll_update(cx)).await?;
+        // The update only counts as observed once the read guard is handed out
+        // (`next_ref_now` takes care of that): if this future is dropped while
+        // it waits for the lock a second time, the update must not be lost.
+        self.observed_version = observed_version;
         Some(self.next_ref_now().await)
     }
 
